@@ -119,6 +119,12 @@ def call_builtin(ex, name, args, kw, st, where, env):
         return
     if name == "float":
         x = args[0]
+        if isinstance(x, str) and x.strip().lower() in ("inf", "+inf", "infinity", "-inf", "-infinity"):
+            # an infinity: a constant above (below) every number it is compared with under the stated finiteness
+            # preconditions; arithmetic on it is not modelled (flagged where it would matter)
+            neg = x.strip().startswith("-")
+            yield Sym(RealT, NEG_INF if neg else POS_INF), st.assume(NEG_INF < POS_INF)
+            return
         if isinstance(x, (int, float)) or type(x).__name__ == "Fraction":
             yield x, st
             return
@@ -182,6 +188,28 @@ def call_builtin(ex, name, args, kw, st, where, env):
             ex.range_info = {}
         ex.range_info[r.get_id()] = (r, lo_e, st_e, n)
         yield Sym(SeqTy(IntT), r), st.assume(z3.Length(r) == n, z3.ForAll([i], z3.Implies(z3.And(i >= 0, i < n), r[i] == lo_e + i * st_e)))
+        return
+    if name in ("numpy.full", "np.full"):
+        shape, fill = args[0], args[1]
+        if not (isinstance(shape, (tuple, list)) and len(shape) == 2):
+            raise PyvcUnsupported("np.full with a shape that is not a pair")
+        n_, m_ = coerce(shape[0], IntT), coerce(shape[1], IntT)
+        t = NpArr2Ty(n_, m_)
+        yield Sym(t, z3.K(z3.IntSort(), z3.K(z3.IntSort(), coerce(fill, RealT)))), st
+        return
+    if name in ("scipy.optimize.linear_sum_assignment", "linear_sum_assignment"):
+        tb = args[0]
+        if not (isinstance(tb, Sym) and isinstance(tb.ty, NpArr2Ty)):
+            raise PyvcUnsupported("linear_sum_assignment of a non-array")
+        n_, m_ = Sym(IntT, tb.ty.n), Sym(IntT, tb.ty.m)
+        rows = ex.uf_apply("lsa_rows", [tb, n_, m_], SeqTy(IntT))
+        cols = ex.uf_apply("lsa_cols", [tb, n_, m_], SeqTy(IntT))
+        ex.iface_used.add("scipy.optimize.linear_sum_assignment")
+        st2 = st
+        if ex.specs is not None:
+            for c in ex.specs.lib_axioms("scipy.optimize.linear_sum_assignment", [tb, n_, m_], (rows, cols)):
+                st2 = st2.assume(c)
+        yield (rows, cols), st2
         return
     if name in ("tqdm", "tqdm.tqdm"):
         yield args[0], st
@@ -279,6 +307,12 @@ def call_builtin(ex, name, args, kw, st, where, env):
         raise PyvcUnsupported(f"Map({x!r})")
     if name == "replace" or name == "dataclasses.replace":
         obj = args[0]
+        if isinstance(obj, Sym) and isinstance(obj.ty, OptTy):
+            st_ok, raises = ex.guard(st, v_not(v_is_none(obj)), "TypeError", where)
+            yield from raises
+            if st_ok is None:
+                return
+            obj, st = v_unwrap(obj), st_ok
         if isinstance(obj, Sym) and isinstance(obj.ty, UnionTy):
             for m in obj.ty.members():
                 st2 = st.assume(ex.world.recognizer(m)(obj.e))
